@@ -247,13 +247,14 @@ func vHarnessTopicsKeyPaging() {
 	c := sdk.WrapSDKContext(ctx)
 	full, err := k.Topics(c, &types.QueryTopicsRequest{OwnerAddress: q})
 	vAssume(err == nil)
-	l := vNondetU64("limit")
-	vAssume(l >= 1 && l <= 3)
 	rev := vNondetBool("reverse")
 	var got []string
 	var key []byte
 	pages := 0
 	for {
+		// every page may ask for a different size: any value from 1 to 2^64-1
+		l := vNondetU64("limit")
+		vAssume(l >= 1)
 		page, perr := k.Topics(c, &types.QueryTopicsRequest{OwnerAddress: q, Pagination: &query.PageRequest{Key: key, Limit: l, Reverse: rev}})
 		vCheck(perr == nil, "C13: a key-paged Topics query succeeds")
 		if perr != nil {
@@ -317,13 +318,14 @@ func vHarnessWritersKeyPaging() {
 	c := sdk.WrapSDKContext(ctx)
 	full, err := k.Writers(c, &types.QueryWritersRequest{OwnerAddress: q, TopicName: qt})
 	vAssume(err == nil)
-	l := vNondetU64("limit")
-	vAssume(l >= 1 && l <= 3)
 	rev := vNondetBool("reverse")
 	var got []string
 	var key []byte
 	pages := 0
 	for {
+		// every page may ask for a different size: any value from 1 to 2^64-1
+		l := vNondetU64("limit")
+		vAssume(l >= 1)
 		page, perr := k.Writers(c, &types.QueryWritersRequest{OwnerAddress: q, TopicName: qt, Pagination: &query.PageRequest{Key: key, Limit: l, Reverse: rev}})
 		vCheck(perr == nil, "C13: a key-paged Writers query succeeds")
 		if perr != nil {
